@@ -19,13 +19,17 @@ Qed.
 (* whatever the constructors accept, the operations that later run with those values do not panic *)
 Theorem accepted_runs p : accepts p = true -> runs_ok p = true.
 Proof.
-  destruct p as [r i w|t ds]; cbn [accepts runs_ok].
+  destruct p as [r i w|t ds|o]; cbn [accepts runs_ok].
   - intros H. repeat (apply andb_true_iff in H as [H ?]).
     unfold aligned_tick_ok, dur, second. rewrite wrap64_small by (unfold atoi_ok in *; lia).
     apply negb_true_iff. apply Z.eqb_neq. lia.
   - intros H. apply andb_true_iff in H as [Hd Ht]. apply andb_true_iff. split.
     + rewrite forallb_forall in *. intros o Ho. apply dest_accepts_runs. auto.
     + destruct t; try reflexivity. destruct ds; [cbn in Ht; discriminate | reflexivity].
+  - intros H. repeat (apply andb_true_iff in H as [H ?]).
+    unfold make_chan_ok, max_alloc, maxint32 in *.
+    assert (0 <= g_bufsize o / g_concurrency o <= g_bufsize o) by (split; [apply Z.div_pos; lia | apply Z.div_le_upper_bound; nia]).
+    repeat (apply andb_true_iff; split); lia.
 Qed.
 
 (* the values that used to be accepted, and what they do *)
@@ -36,6 +40,10 @@ Proof. vm_compute. reflexivity. Qed.
 Example zero_flush_panics :
   dest_runs_ok {| o_flush := 0; o_reconn := 10000; o_connbuf := 30000; o_iobuf := 2000000; o_spool := false; o_spoolbuf := 10000;
                   o_maxbytes := 209715200; o_syncevery := 10000; o_syncperiod := 1000; o_spoolsleep := 500; o_unspoolsleep := 10 |} = false.
+Proof. reflexivity. Qed.
+Example gn_zero_concurrency_panics :
+  runs_ok (PGn {| g_concurrency := 0; g_bufsize := 10000000; g_flushmaxnum := 5000; g_flushmaxwait := 500; g_timeout := 10000;
+                  g_orgid := 1; g_backoffmin := 100 |}) = false.
 Proof. reflexivity. Qed.
 Example defaults_accepted :
   accepts (PRoute RAll [{| o_flush := 1000; o_reconn := 10000; o_connbuf := 30000; o_iobuf := 2000000; o_spool := true; o_spoolbuf := 10000;
